@@ -918,8 +918,7 @@ class Database(object):
     def insert(database, table_name, returning=None, **kwargs):
         table_name = database._get_table_name(table_name)
         if database.provider is None: throw(MappingError, 'Database object is not bound with a provider yet')
-        query_key = (table_name,) + tuple(kwargs)  # keys are not sorted deliberately!!
-        if returning is not None: query_key = query_key + (returning,)
+        query_key = (table_name, tuple(kwargs), returning)  # keys are not sorted deliberately!!
         cached_sql = database._insert_cache.get(query_key)
         if cached_sql is None:
             ast = [ 'INSERT', table_name, kwargs.keys(),
